@@ -1,5 +1,6 @@
 import ExprModel.Proofs.CheckerSpec
 import ExprModel.Proofs.SoundFrag
+import ExprModel.Proofs.SoundAsm
 /-
 C03 — Static typing is sound and rejects ill-typed expressions.
 
@@ -445,12 +446,117 @@ theorem as_kind_exact_partial (cfg : CheckCfg) (c : Spec.SCfg) (henv : EnvConfor
       simp only [castV, toFloat64Val, numOf_kind hv, hx]
       exact ⟨x, rfl⟩
 
+/-! ### soundness proved: the extended fragment (collections), against `Spec.eval`
+
+`inFrag2` adds to the scalar fragment: the closure variable `#`, `in` / `not in` on a slice, the range
+`..`, indexing a slice by an integer, `len`, and the predicate builtins `all none any one count` with a
+closure.  `typed2` is "every operand has a static type the construct's rule is sound for": scalar operands
+for the scalar operators and the predicate's body, a slice of scalars (`[]int`, `[]string`, …) where a
+collection is expected, an integer (not `interface{}`) index.  This excludes, explicitly, the constructs
+behind the known findings: the loose index rule (index typed `interface{}`), `filter`/`map` (static slice
+type differs from the run-time `[]interface{}`), arithmetic on `interface{}` operands, calls (retyped
+arguments).  `EnvConforms2`: the environment holds, under every name the checker types as a scalar or a
+slice of scalars, a value of that type (for a slice: the element tag and every element).  The tolerated
+failures are the value-dependent ones, `ValueDep`: division by zero, index out of range, memory budget. -/
+
+/-- **Soundness on the extended fragment**: if `Check` accepts `n` with type `τ` (a scalar or a slice of
+scalars), evaluating the annotated tree with the reference evaluator yields a value of type `τ` — for a
+slice: with the static element tag and all elements of the element type — or fails with a
+value-dependent error; never with a type error. -/
+theorem check_sound_collections_partial (cfg : CheckCfg) (c : Spec.SCfg) (henv : EnvConforms2 cfg c.env)
+    (n n' : Node) (τ : OTy) (V : VTy) (hfrag : inFrag2 n = true) (hstatic : typed2 cfg [] n = true)
+    (h : check cfg n = .ok n' τ) (hV : vtyOf τ = some V) (ctx : Spec.Ctx) (s : Spec.SState) :
+    match (Spec.eval c ctx n' s).1 with
+    | .ok v => ValOfV v V
+    | .error e => ValueDep e := by
+  have hs := accepted_type_is_synth cfg n n' τ h
+  obtain ⟨hn', _, _, _⟩ := (check_ok_iff cfg n n' τ).1 h
+  obtain ⟨_, _, hev⟩ := frag2_sound (E := ValueDep) (Or.inl rfl) (Or.inr (Or.inl rfl)) (Or.inr (Or.inr rfl))
+    cfg c henv n [] hfrag hstatic τ V hs hV {} rfl
+  rw [hn'] at hev
+  exact hev ctx trivial s
+
+/-- … and for whole programs (`Spec.run`: evaluate, then the conversion the compiler appends for
+`AsInt64` / `AsFloat64`): under `AsBool` the result is exactly a `bool`, under `AsInt64` exactly an
+`int64`, under `AsFloat64` exactly a `float64`, or the run fails with a value-dependent error (`τ` scalar: not an
+`interface{}`-typed result, which the directives also admit). -/
+theorem as_kind_exact_collections_partial (cfg : CheckCfg) (c : Spec.SCfg) (henv : EnvConforms2 cfg c.env)
+    (n n' : Node) (τ : OTy) (hfrag : inFrag2 n = true) (hstatic : typed2 cfg [] n = true)
+    (h : check cfg n = .ok n' τ) (hτs : ScalarT τ) :
+    (cfg.expect = .bool → match (Spec.run c none n').1 with
+      | .ok v => ∃ b, v = .bool b | .error e => ValueDep e) ∧
+    (cfg.expect = .int64 → match (Spec.run c (some 0) n').1 with
+      | .ok v => ∃ x, v = .int .int64 x | .error e => ValueDep e) ∧
+    (cfg.expect = .float64 → match (Spec.run c (some 1) n').1 with
+      | .ok v => ∃ x, v = .f64 x | .error e => ValueDep e) := by
+  have hk := as_kind_exact cfg n n' τ h
+  have key : ∀ k, τ.kind = k →
+      match (Spec.eval c [] n' {}).1 with
+      | .ok v => ValOfK v k
+      | .error e => ValueDep e := by
+    intro k hkk
+    have := check_sound_collections_partial cfg c henv n n' τ (.sc τ.kind) hfrag hstatic h (vtyOf_scalar hτs) [] {}
+    rw [hkk] at this
+    exact this
+  refine ⟨?_, ?_, ?_⟩
+  · intro he
+    have hev := key .bool (hk.1 he)
+    unfold Spec.run
+    rcases hr : Spec.eval c [] n' {} with ⟨r, s'⟩
+    rw [hr] at hev
+    cases r with
+    | error e => exact hev
+    | ok v => exact hev
+  · intro he
+    have hnum := hk.2 (Or.inl he)
+    obtain ⟨k, hkk⟩ := (isNumberT_scalar hτs).1 hnum
+    have hev := key (.num k) hkk
+    unfold Spec.run
+    rcases hr : Spec.eval c [] n' {} with ⟨r, s'⟩
+    rw [hr] at hev
+    cases r with
+    | error e => exact hev
+    | ok v =>
+      simp only [] at hev ⊢
+      have hv : NumOf v k := hev
+      obtain ⟨x, hx⟩ := conv_num .int64 hv
+      simp only [castV, numOf_kind hv, hx]
+      exact ⟨x, rfl⟩
+  · intro he
+    have hnum := hk.2 (Or.inr he)
+    obtain ⟨k, hkk⟩ := (isNumberT_scalar hτs).1 hnum
+    have hev := key (.num k) hkk
+    unfold Spec.run
+    rcases hr : Spec.eval c [] n' {} with ⟨r, s'⟩
+    rw [hr] at hev
+    cases r with
+    | error e => exact hev
+    | ok v =>
+      simp only [] at hev ⊢
+      have hv : NumOf v k := hev
+      obtain ⟨x, hx⟩ := conv_num .float64 hv
+      simp only [castV, toFloat64Val, numOf_kind hv, hx]
+      exact ⟨x, rfl⟩
+
 -- the hypotheses are satisfiable and not vacuous
 example : WellTyped (cfgWith .repaired) (.binary {} "+" (ident "I") (.int {} 2)) ∧
     ¬ WellTyped (cfgWith .repaired) (.binary {} "+" (ident "I") (.str {} "a")) ∧
     Static (cfgWith .repaired) (.binary {} "+" (ident "I") (.int {} 2)) ∧
     inFrag (.binary {} "+" (ident "I") (.int {} 2)) = true ∧
     scalarTyped (cfgWith .asIs) [] (.binary {} "+" (ident "I") (.int {} 2)) = true := by
+  decide +kernel
+
+/-- `all(Ints, {# in 1..I}) and len(Ints) > Ints[0]` -/
+def exprColl : Node :=
+  .binary {} "and"
+    (.builtin {} "all" [ident "Ints", .closure {} (.binary {} "in" (.pointer {}) (.binary {} ".." (.int {} 1) (ident "I")))])
+    (.binary {} ">" (.builtin {} "len" [ident "Ints"]) (.index {} (ident "Ints") (.int {} 0)))
+
+example : inFrag2 exprColl = true ∧ typed2 (cfgWith .asIs) [] exprColl = true ∧
+    (check (cfgWith .asIs) exprColl).okType = some boolTy ∧
+    -- the excluded constructs are outside the predicates
+    inFrag2 exprFilter = false ∧ inFrag2 exprFs1 = false ∧
+    typed2 (cfgWith3 .asIs) [] exprAnyTimes1 = false ∧ typed2 (cfgWith .asIs) [] exprIntsA = false := by
   decide +kernel
 
 end ExprModel.C03
